@@ -7,6 +7,7 @@ import re
 
 from coco.b09 import elements as E
 from coco.b09.compiler import convert
+from tx.tier import THOROUGH, pick
 from tx.opaque import OpqExp, mark
 from tx.p_c05 import ob, guarded
 from tx.run_cases import norm
@@ -31,7 +32,7 @@ def chains():
 def hex_values():
     def run():
         bad = []
-        for v in list(range(0, 0x20000)) + [0xFFFFFF, 0x7FFFFFFF]:
+        for v in list(range(0, pick(0x20000, 0x100000))) + [0xFFFFFF, 0x7FFFFFFF]:
             for isf in (False, True):
                 t = E.HexLiteral(hex(v)[2:].upper(), is_float=isf).basic09_text(0)
                 # BASIC09: $hhhh is a 16-bit signed integer constant -> usable only below $8000; else decimal
@@ -41,7 +42,7 @@ def hex_values():
                     exp = ("%d.0" if isf else "%d") % v
                 if t != exp:
                     bad.append((v, isf, t, exp))
-        return [ob("hex/denotes-source-value,0..0x1FFFF", not bad, "value < $8000 -> $HEX, else decimal", bad[:4], bounded="all values 0..0x1FFFF plus two large ones")]
+        return [ob("hex/denotes-source-value,0..0x1FFFF", not bad, "value < $8000 -> $HEX, else decimal", bad[:4], bounded="all values 0..%s plus two large ones" % pick("0x1FFFF", "0xFFFFF"))]
     return guarded("hex", run)
 
 
@@ -213,4 +214,6 @@ _c01_base = obligations
 
 
 def obligations():  # noqa: F811
-    return _c01_base() + literal_values()
+    # a value computed by a hoisted call reaches the expression through its temporary: temporaries of one statement are distinct
+    from tx.p_c05 import temp_sequences
+    return _c01_base() + literal_values() + temp_sequences()
